@@ -73,12 +73,11 @@ Definition add_version (vkinds : list kind) (t : tuple) (mods : list (nat * valu
              t_vals := new_vals; t_deltas := d :: t_deltas t |}
   end.
 
+(** [Tuple::delete] overwrites xmax: callers only delete rows visible to them, so an xmax already
+    present belongs to a transaction whose delete did not take effect. *)
 Definition delete (t : tuple) (xid : N) : tuple :=
-  match t_xmax t with
-  | Some _ => t
-  | None => {| t_xmin := t_xmin t; t_xmax := Some xid; t_version := t_version t; t_keys := t_keys t;
-               t_vals := t_vals t; t_deltas := t_deltas t |}
-  end.
+  {| t_xmin := t_xmin t; t_xmax := Some xid; t_version := t_version t; t_keys := t_keys t;
+     t_vals := t_vals t; t_deltas := t_deltas t |}.
 
 Fixpoint take_needed (oldest : N) (ds : list delta) : list delta :=
   match ds with
